@@ -434,6 +434,10 @@ class Run:
                             # the STORE itself is acknowledged before the background flush parks
                             self.acked.append(pend)
                         self.eng.cmd("!wal_drained 1500")
+                        # the WAL thread opens the next log file right after the write that filled the current one: give
+                        # that step time to log its label before the observation (seen once under load: file on disk,
+                        # label not yet in the trace)
+                        self.eng.cmd("!sleep 60")
                         self.drain_trace()
                         if w.get("parked"):
                             for _ in range(nobs):
